@@ -22,6 +22,8 @@
 (*   "N" not UTF-8   "M" declares a module whose file is missing            *)
 (*   "H" a child with a syntax error that its declaration names twice, through  *)
 (*       two cfg_attr(.., path = ..) attributes (the file is read once)         *)
+(*   "K" a child that opts out with #![rustfmt::skip] AND has a syntax error:  *)
+(*       opting out of formatting is not opting out of being parsed            *)
 (*   "G" declares, inside cfg_if!, a module whose file is missing (the arms of   *)
 (*       cfg_if! are resolved like any other declaration)                      *)
 (*   "A" declares a module with both x.rs and x/mod.rs                      *)
@@ -48,7 +50,7 @@ CONSTANTS MaxRoots, MaxFiles,
                           \*        next to healthy all-unformatted roots
           LocalCfgAborts  \* TRUE: model main::format's `load_config(..)?` as the code has it
 
-ParseFail == {"E", "P", "N", "R", "H"}
+ParseFail == {"E", "P", "N", "R", "H", "K"}
 ResolveFail == {"M", "A", "C", "G"}
 (* what the code does with "D": find_mods_outside_of_ast swallows the parse  *)
 (* failure (`Err(..) => continue`); the error stays counted in the session   *)
@@ -71,7 +73,7 @@ WellFormed(r) ==
   /\ r.rp <= r.n
   /\ (r.fault \in FileFaults) => (r.fpos \in 1 .. r.n)
   /\ (r.fault \notin FileFaults) => r.fpos = 0
-  /\ (r.fault \in {"S", "C", "D", "Z", "H"}) => r.fpos # r.rp   \* child-only kinds
+  /\ (r.fault \in {"S", "C", "D", "Z", "H", "K"}) => r.fpos # r.rp   \* child-only kinds
   /\ (r.pat = "mixed") => r.n > 1
   /\ r.ign => (r.fault \in {"none", "E", "R", "P", "M"} /\ r.pat # "mixed")
 
